@@ -5,7 +5,11 @@ import json
 import os
 from concurrent.futures import ThreadPoolExecutor
 
+import sys
+
 import vlib
+
+sys.setrecursionlimit(20000)   # deeply nested values of the "big" streams
 
 MODEL = ["theories/Jsonx/Corr.vo"]
 
@@ -24,7 +28,9 @@ TY = {"keyword": 0, "ident": 1, "string": 2, "int": 3, "float": 4, "operator": 5
 
 TRUSTED = [
     "Coq 8.16.1 kernel + vm_compute",
-    "translator gen/jsonx.go (keyword set, token codes, operator runes, exponent signs, error cap, SkipErrStmt loop condition)",
+    "translator gen/jsonx.go (keyword set, token codes, operator runes, exponent signs, error cap, SkipErrStmt loop condition, "
+    "every write to the error state and the delegation skeleton of the helpers that reach it) and gen/jsonx_own.go (origin of "
+    "every []byte result, package-level buffers and pools)",
     "harness/cmd/jsonx + checks/jsonx_common.py comparison; jsonx/verif_export.go shim",
     "modelled, compared on every run, not verified: bufio.ReadRune UTF-8 decoding, strconv.Unquote, strconv.Quote, "
     "json.Marshal of strings, big.Int SetString/String, encoding/json as the reference JSON reader",
@@ -112,8 +118,34 @@ def to_coq(c):
     if o.get("crash") or o.get("outhex"):
         return None
     op = c["op"]
-    if op in ("file", "gort", "runes"):
+    if op in ("file", "gort", "runes", "reuse", "targets", "lexfn", "hold"):
         return "CUtf8 [] []"      # compared by the oracle only
+    if op in ("rstream", "rseries") and c.get("rmode") in (6, 7):
+        return "CUtf8 [] []"      # a failing reader: oracle only (usage_oracle)
+    if op == "rstream":
+        op = "stream"             # the model does not depend on how the reader delivers the bytes
+    if op == "rseries":
+        op = "series"
+    if op == "script":
+        steps = []
+        for st in o.get("steps") or []:
+            if st["op"] == "M":
+                steps.append("SOMore %s" % ("true" if st.get("more") else "false"))
+            elif st["op"] == "D":
+                if st.get("ok"):
+                    steps.append("SODec (Some %s) 0 []" % nlist(st.get("out") or []))
+                else:
+                    steps.append("SODec None %d %s" % (st.get("fin", 0), errs(st.get("errs"))))
+            else:
+                if st.get("ok"):
+                    its = "[" + ";".join("(%s,%s)" % (nlist(it[0] or []), nlist(it[1] or []))
+                                         for it in st.get("items") or []) + "]"
+                    steps.append("SOSer (Some %s) []" % its)
+                else:
+                    steps.append("SOSer None %s" % errs(st.get("errs")))
+        known = "[" + ";".join(ascii_list(k) for k in c.get("known") or []) + "]"
+        ops = nlist({"M": 0, "D": 1, "S": 2}[ch] for ch in c.get("script", ""))
+        return "CScript %s %s %s %s [%s]" % (inbytes(c), ftable(o.get("floats")), known, ops, ";".join(steps))
     if op == "utf8":
         return "CUtf8 %s %s" % (inbytes(c), nlist(o.get("out") or []))
     if op == "raw":
@@ -210,7 +242,7 @@ def run_harness(ck, mode, n, timeout=1500):
     return [c for c in cases if (c.get("obs") or {}).get("note") != "skipped"]
 
 
-def correspondence(ck, cases, shard=1200):
+def correspondence(ck, cases, shard=1000):
     """Evaluate the model on every case; returns the list of mismatching case
     indices (into cases) or None if evaluation itself failed."""
     terms = []
@@ -221,7 +253,9 @@ def correspondence(ck, cases, shard=1200):
             mism.append(i)
         else:
             terms.append((i, t))
-    shards = [terms[s:s + shard] for s in range(0, len(terms), shard)]
+    # round robin, so that a stream of expensive cases is spread over all shards
+    nsh = max(1, -(-len(terms) // shard))
+    shards = [terms[k::nsh] for k in range(nsh)]
 
     def ev(k):
         part = shards[k]
@@ -233,7 +267,7 @@ def correspondence(ck, cases, shard=1200):
         return k, got, out
 
     failed = False
-    with ThreadPoolExecutor(max_workers=8) as ex:
+    with ThreadPoolExecutor(max_workers=12) as ex:
         for k, got, out in ex.map(ev, range(len(shards))):
             if got is None:
                 ck.broken.append({"what": "correspondence evaluation failed", "shard": k, "detail": out[-1500:]})
@@ -331,6 +365,158 @@ def shrink(ck, case, still_fails, budget=120):
                 break
             n = min(n * 2, len(data))
     return best
+
+
+def scan_state(data):
+    """Independent of the model: is the end of `data` inside a string, a block
+    comment, or an unclosed bracket?  Used only on cuts of documents that are
+    valid as a whole."""
+    i, n, depth = 0, len(data), 0
+    while i < n:
+        c = data[i:i + 1]
+        if c == b'"':
+            i += 1
+            while True:
+                if i >= n:
+                    return "string"
+                if data[i:i + 1] == b"\\":
+                    i += 2
+                    if i > n:
+                        return "string"
+                    continue
+                if data[i:i + 1] == b"\n":
+                    return "string"
+                if data[i:i + 1] == b'"':
+                    i += 1
+                    break
+                i += 1
+            continue
+        if c == b"`":
+            j = data.find(b"`", i + 1)
+            if j < 0:
+                return "string"
+            i = j + 1
+            continue
+        if data[i:i + 2] == b"/*":
+            j = data.find(b"*/", i + 2)
+            if j < 0:
+                return "comment"
+            i = j + 2
+            continue
+        if data[i:i + 2] == b"//":
+            j = data.find(b"\n", i)
+            if j < 0:
+                return None if depth == 0 else "bracket"
+            i = j
+            continue
+        if c in (b"{", b"["):
+            depth += 1
+        elif c in (b"}", b"]"):
+            depth -= 1
+        i += 1
+    return "bracket" if depth > 0 else None
+
+
+def _shape(what, ok, es):
+    """value xor errors; at most 20 errors"""
+    if not ok and not es:
+        return "neither", "%s returned neither a result nor an error" % what
+    if ok and es:
+        return "value-and-error", "%s returned a result and errors %s" % (what, es[:3])
+    if len(es) > 20:
+        return "cap", "%s returned %d errors, more than the cap of 20" % (what, len(es))
+    return None
+
+
+def usage_oracle(c):
+    """Implementation-only oracle of the usage-pattern ops (round 3): a script
+    of calls on one Decoder, shaped and failing readers, reuse of results,
+    decoding targets, the other exported lexers, the spelling of raw tokens."""
+    o, op = c["obs"], c["op"]
+    if op == "script":
+        if o.get("note"):
+            return "decoder-script", o["note"]
+        steps = o.get("steps") or []
+        if len(steps) != len(c.get("script", "")):
+            return "decoder-script", "the script %s ended after %d calls" % (c.get("script"), len(steps))
+        want = c.get("wantsteps") or []
+        for k, st in enumerate(steps):
+            what = {"M": "More", "D": "Decode", "S": "DecodeSeries"}[st["op"]] + " (call %d of %s)" % (k + 1, c["script"])
+            if st["op"] != "M":
+                bad = _shape(what, st.get("ok"), st.get("errs") or [])
+                if bad:
+                    return bad
+            if k >= len(want) or want[k] == "":
+                continue
+            w = want[k]
+            if st["op"] == "M":
+                if (w == "true") != bool(st.get("more")):
+                    return "decoder-script", "%s returned %s, %s values are still to come" % (
+                        what, st.get("more"), "some" if w == "true" else "no")
+            elif w == "!":
+                if st.get("ok"):
+                    return "decoder-script", "%s returned a value (%s) where there is none" % (what, st.get("got"))
+            elif not st.get("ok"):
+                return "decoder-script", "%s failed (%s) on a valid document" % (what, (st.get("errs") or [])[:3])
+            elif st["op"] == "D":
+                if "E(" not in w and not same_value(w, st.get("got")):
+                    return "meaning", "%s returned %s, the input denotes %s" % (what, st.get("got"), w)
+            else:
+                ws, gs = w.split("#"), (st.get("got") or "").split("#")
+                if len(ws) != len(gs) or any(
+                        a.split(" ", 1)[0] != b.split(" ", 1)[0] or
+                        ("E(" not in a and not same_value(a.split(" ", 1)[1], b.split(" ", 1)[1] if " " in b else None))
+                        for a, b in zip(ws, gs)):
+                    return "meaning", "%s returned %s, the input denotes %s" % (what, st.get("got"), w)
+        return None
+    if op in ("rstream", "rseries"):
+        if o.get("note"):
+            return "reader-shape", o["note"]
+        es = o.get("errs") or []
+        failed = (not o.get("ok")) if op == "rseries" else o.get("fin", 0) != 0
+        bad = _shape(op, not failed, es)
+        if bad:
+            return bad
+        if c.get("rmode") in (6, 7):
+            cut = bytes.fromhex(c["in"])[:c.get("cut", 0)]
+            if op == "rseries" and (o.get("ok") or es != ["reader"]):
+                return "reader-error-dropped", ("the reader failed after %d bytes; DecodeSeries returned %s" % (
+                    c.get("cut", 0), "a result" if o.get("ok") else es[:3]))
+            if op == "rstream" and o.get("ok") and scan_state(cut) in ("string", "bracket"):
+                return "truncated-accepted", "the reader failed inside a %s; the Decode loop ended without an error" % scan_state(cut)
+        return None
+    if op in ("reuse", "targets", "lexfn"):
+        if o.get("note"):
+            return op, o["note"]
+        return None
+    if op == "raw" and o.get("note"):
+        return "spelling", "the raw tokens do not spell the input: %s" % o["note"]
+    return None
+
+
+def hold_oracle(ck, cases, k):
+    """op hold: results kept since the previous hold case were looked at again
+    after the cases in between ran.  A result that changed is reported with
+    the batch of cases as replay."""
+    c = cases[k]
+    o = c["obs"]
+    un = o.get("unstable") or []
+    if not un:
+        return False
+    first = un[0]
+    lo = first["i"]
+    by_i = {x.get("i"): x for x in cases[max(0, k - 40):k + 1]}
+    batch = [slim(by_i[j]) for j in range(lo, c.get("i", k)) if j in by_i and by_i[j]["op"] != "hold"]
+    for b in batch:
+        b.pop("obs", None)
+    ck.violation("impl:result-overwritten:%s" % first["op"],
+                 "%s by case %d (%s %s) changed while the %d following cases ran: returned %s, now %s "
+                 "(%d of %d results held over this batch changed)" % (
+                     first["what"], first["i"], first["op"], first["src"], len(batch) - 1,
+                     first["before"], first["after"], o.get("fin", 0), o.get("n", 0)),
+                 {"batch": batch, "changed": un, "expected": "a result stays what was returned until its owner changes it",
+                  "observed": o})
+    return True
 
 
 def file_oracle(c):
